@@ -1,5 +1,6 @@
 import AffVerif.Proofs.ElimEffective
 import AffVerif.Proofs.ElimTerminals
+import AffVerif.Proofs.Effective
 import AffVerif.Props.C05
 /-!
 # C06 — infeasible-path elimination is effective and idempotent
@@ -21,6 +22,14 @@ import AffVerif.Props.C05
 * `C06_swept_caches` — the swept tree also carries sound caches: every node still marked by a witness has a point
   within `tol` of all its path conditions (so its region is not empty by more than `tol`), every node marked
   infeasible has an empty region and no sibling.
+* `C06_effective` — the first clause of the property as a theorem, under hypotheses on the solver that the judge
+  validates per call: with oracles that always reach a verdict (`Decisive`), whose `Unbounded` answers are given for
+  non-empty sets only (`UnboundedNonempty`) and whose repair heuristic returns points of the polytope it was asked for
+  (`MirrorSound`, `MirrorNonempty`), every node below the root of the swept tree is marked infeasible or has a point
+  within the containment tolerance of all its path conditions — and so on below every such node (`PT.Effective`).
+  A node marked infeasible that is still there is the last child of its decision (`C06_no_single_branch`). The input
+  tree may carry caches (`CacheOK`, `PT.StSound StNE`: witness lists non-empty, `Feasible` marks on non-empty regions),
+  e.g. any fresh tree or the result of an earlier sweep (`C06_effective_caches_kept`).
 * Terminal count (last sentence of the property), for *every* solver that is right about "infeasible":
   `C06_reached_terminal_kept` — the sweep keeps the identity (arena index and map) of the terminal every input reaches:
   forwarding shortens paths, it never changes where they end; `C06_terminals_sublist` — it creates no terminal: the
@@ -67,6 +76,46 @@ theorem C06_swept_caches {σ : Type} (tol : α) (O : Oracles σ α) (hd : Decisi
     (hm : MirrorSound tol O.mirror) (n m : Nat) (t : PT α) (s : σ) (h : CacheOK tol n m t) :
     PT.SettledBelow (infeasibleElimination tol O n t s).1 ∧ CacheOK tol n m (infeasibleElimination tol O n t s).1 :=
   ⟨C06_sweep_settles tol O hd n t s, C05_elim tol O hlp hm n m t s h⟩
+
+/-- the caches the sweep leaves satisfy the two extra clauses again (so sweeps can be chained): witness lists are
+    non-empty — the `assert!` of `phase_one` never fires on a swept tree — and `Feasible` marks sit on non-empty regions -/
+theorem C06_effective_caches_kept {σ : Type} (tol : α) (O : Oracles σ α) (hmn : MirrorNonempty O.mirror)
+    (hub : UnboundedNonempty O.lp) (n m : Nat) (t : PT α) (s : σ) (ht : PT.Shaped 2 n m t)
+    (hne : PT.StSound StNE [] t) : PT.StSound StNE [] (infeasibleElimination tol O n t s).1 := by
+  have hok := PT.elimOK_of_shaped t n m ht
+  unfold infeasibleElimination
+  cases t with
+  | node i c ks =>
+    unfold PT.StSound at hne
+    exact PT.stSound_elimNode StNE stNE_pred tol O n
+      (fun s node pst path hyper hp => decideNode_ne tol O hmn hub n s node pst path hyper hp)
+      true [] c.state (.node i c ks) s hok hne.2 hne.1
+
+/-- effectiveness: no node below the root of the swept tree has a path region that is empty by more than the
+    containment tolerance, except a node that is marked infeasible (the last child of its decision) -/
+theorem C06_effective {σ : Type} (tol : α) (htol : 0 ≤ tol) (O : Oracles σ α) (hd : Decisive tol O)
+    (hlp : InfeasibleSound O.lp) (hm : MirrorSound tol O.mirror) (hmn : MirrorNonempty O.mirror)
+    (hub : UnboundedNonempty O.lp) (n m : Nat) (t : PT α) (s : σ) (h : CacheOK tol n m t)
+    (hne : PT.StSound StNE [] t) :
+    PT.Effective tol [] (infeasibleElimination tol O n t s).1 := by
+  have hw := (C05_elim tol O hlp hm n m t s h).2.2.1
+  have h2 := C06_effective_caches_kept tol O hmn hub n m t s h.1 hne
+  exact PT.effective_of tol htol _ [] (PT.stSound_of_witSound tol _ [] hw) h2 (C06_sweep_settles tol O hd n t s)
+
+/-- fresh trees (every constructor, every un-pruned composition of fresh trees) satisfy the extra clauses -/
+theorem C06_effective_fresh (t : PT α) (hf : PT.Fresh t) : PT.StSound StNE [] t :=
+  PT.stSound_of_fresh StNE stNE_indeterminate t [] hf
+
+/-- un-pruned composition (any schema: `compose`, and the arithmetic operators before pruning) and `apply_func` keep the
+    extra clauses, so every state of a compose / eliminate / compose / eliminate pipeline that starts from a fresh tree
+    satisfies the hypotheses of `C06_effective` (with `C05_compose`, `C05_apply_func`, `C05_elim` for `CacheOK`) -/
+theorem C06_effective_compose (S : Schema α) (f g : PT α) (c : Nat) (h : PT.StSound StNE [] f) :
+    PT.StSound StNE [] (PT.composeS S f g c).1 :=
+  PT.stSound_composeS StNE stNE_indeterminate S f g c [] h
+
+theorem C06_effective_apply_func (t : PT α) (a : Aff α) (h : PT.StSound StNE [] t) :
+    PT.StSound StNE [] (PT.applyFunc t a) :=
+  PT.stSound_mapTerminals StNE _ t [] h
 
 /-- the terminal an input reaches keeps its arena index and its map -/
 theorem C06_reached_terminal_kept {σ : Type} (tol : α) (O : Oracles σ α) (hlp : InfeasibleSound O.lp)
@@ -118,6 +167,34 @@ theorem C06_terminal_count_bounds {σ : Type} (tol : α) (O : Oracles σ α) (hl
     the ReLU tree, so its swept version has exactly two terminals whatever the solver does -/
 example : (∀ x ∈ [[(3 : Rat)], [-2]], (PT.findTerminal exRelu x).isSome) ∧
     ([[(3 : Rat)], [-2]].map (fun x => (PT.findTerminal exRelu x).map (·.1))).Nodup := by decide +kernel
+
+/-- non-vacuity of the solver hypotheses of `C06_effective`: the exact decision procedure ("unbounded" for a non-empty
+    set — the objective of the feasibility question is constant —, "infeasible" for an empty one; classical, not
+    computable) together with a heuristic that never helps satisfies all five of them -/
+example {σ : Type} (tol : α) :
+    let O : Oracles σ α := ⟨fun s p _ => (@ite _ (∃ x, Poly.Mem p x) (Classical.propDecidable _) LPAnswer.unbounded
+      LPAnswer.infeasible, s), fun s _ _ _ _ => (none, s)⟩
+    Decisive tol O ∧ InfeasibleSound O.lp ∧ UnboundedNonempty O.lp ∧ MirrorSound tol O.mirror ∧
+      MirrorNonempty O.mirror := by
+  intro O
+  refine ⟨?_, ?_, ?_, ?_, ?_⟩
+  · apply decisive_of_lp_decides
+    intro s p c
+    by_cases h : ∃ x, Poly.Mem p x
+    · left; simp [O, h]
+    · right; simp [O, h]
+  · intro s p c h
+    simp only [O] at h
+    by_cases hx : ∃ x, Poly.Mem p x
+    · simp [hx] at h
+    · exact hx
+  · intro s p c h
+    simp only [O] at h
+    by_cases hx : ∃ x, Poly.Mem p x
+    · exact hx
+    · simp [hx] at h
+  · intro s node poly ws k pts s' h; simp [O] at h
+  · intro s node poly ws k pts s' h; simp [O] at h
 
 /-- non-vacuity of `Decisive`: a backend that always answers (here: "unbounded") with a heuristic that never helps -/
 example {σ : Type} (tol : α) : Decisive tol (⟨fun s _ _ => (.unbounded, s), fun s _ _ _ _ => (none, s)⟩ : Oracles σ α) := by
